@@ -208,6 +208,16 @@ def fill_points(rng, case):
     for k in chosen[:n]:
         pts.append(to_world(sh, k))
         cls.append("feature")
+    if sh.get("stream") == "exact" and n >= 16:
+        # exhaustive small lattice: every operation of model and code is exact on these points, so the
+        # booleans must be identical, boundary points included (343 points, k_i in {0, +-1/2, +-1, +-3/2} * extent)
+        g = [-1.5, -1.0, -0.5, 0.0, 0.5, 1.0, 1.5]
+        for a in g:
+            for b in g:
+                for c3 in g:
+                    pts.append(to_world(sh, [a * e[0], b * e[1], c3 * e[2]]))
+                    cls.append("grid")
+        n = len(pts)
     while len(pts) < n:
         r = rng.random()
         if sh.get("stream") == "exact":
@@ -474,7 +484,9 @@ def run(tier, seed, replay=None):
     R.cov["rule"] = ("case = one shape of the primitive domain P (8 predicates x streams random general position / lattice poses; "
                      "sizes in [0.2,1e2]) + a batch of 1-64 points mixing: random points within 1.5x the extent, exact features "
                      "(centre, axis points, apex, rim, corners), boundary pushes = boundary point +- k*1e-9*L along the outward "
-                     "normal with k in {1.5,4,100,1e4} (10%: k in {0,+-0.3}, inside the band); distinct_nontrivial counts "
+                     "normal with k in {1.5,4,100,1e4} (10%: k in {0,+-0.3}, inside the band); half of the 'exact' stream cases (axis permutation "
+                     "poses, power-of-two sizes) additionally get the exhaustive 7x7x7 lattice k_i in {0,+-1/2,+-1,+-3/2}*extent, on which "
+                     "model and code must agree exactly; distinct_nontrivial counts "
                      "distinct (case hash, point index) pairs that the exact oracle classified 'in' or 'out' (i.e. judged points)")
     R.assumptions += [
         "theorems are about the Gallina model Model/Contain.v instantiated at exact real arithmetic; the tie to /repo is the correspondence check run here (binary64 instance of the same model vs implementation, booleans equal wherever the oracle certifies a 1e-9*L margin, AND - boundary points and absolute thresholds included - wherever every operation is exact in binary64: axis-permutation pose, power-of-two sizes, dyadic points)",
